@@ -168,10 +168,16 @@ def main():
              "kind_free_text": "TLC model checking of the TLA+ modules under spec/"},
             {"name": "tlc-oracle", "path": "harness/tlc.py", "serves_properties": sorted(CHECKS),
              "kind_free_text": "TLC evaluates spec operators on harness inputs; outputs compared with the real code"},
+            {"name": "replay", "path": "harness/replay.py", "serves_properties": ["C01", "C02", "C03", "C04", "C09", "C13", "C18"],
+             "kind_free_text": "TLC-generated behaviours (simulate and bounded-exhaustive enumeration) stepped through the real optimizer; float64 reference driven by the spec's control decisions"},
+            {"name": "trace-validation", "path": "harness/behaviours.py", "serves_properties": ["C01", "C02", "C03", "C04", "C06", "C07", "C08", "C10", "C13", "C18"],
+             "kind_free_text": "traces recorded from the real code (drivers, long random histories, the repository's own tests, simulated ranks, solver returns) validated by TLC against spec/ShampooTrace, DistTrace, MatrixFn"},
+            {"name": "simdist", "path": "harness/simdist.py", "serves_properties": ["C06", "C07", "C08", "C09", "C14"],
+             "kind_free_text": "thread-per-rank simulated world with arrival gates and exact deadlock detection; unmodified distributors"},
         ],
         "checks": [],
         "not_applicable": [],
-        "notes": "Generated by harness/manifest_gen.py. Exit codes: 0 held, 1 violation (VIOLATION line), 2 machinery failure.",
+        "notes": "Generated by harness/manifest_gen.py. Exit codes: 0 held, 1 violation (VIOLATION line), 2 machinery failure. Known findings: known_findings.json (D5a rank starvation for C06/C07/C08; nine defects fixed by fix: commits in /repo). Beyond the listed properties: ./check GROWTH (spec/Quantized). Sensitivity self-test over mutants/ and seeded/: tools/selftest.py (uses scratch worktrees through VERIF_REPO, never /repo).",
     }
     for pid in ALL:
         if pid in CHECKS:
